@@ -390,6 +390,82 @@ def noreplay_pause_probe():
     return bad
 
 
+# ----------------------------------------------------------------------------- C45: stream assets of devices without get_index
+def stream_assets_probe():
+    """a single device that reports its frames as stream assets from collect_asset_docs() -- with and without get_index() --
+    collected several times into a declared stream: index ranges and seq_num ranges of its stream datums continue where the
+    previous ones ended, have equal width, and RunStop.num_events equals the frames declared"""
+    import bluesky.plan_stubs as bps
+
+    class Writer:
+        parent = None
+
+        def __init__(self, name, progression, indexed):
+            self.name, self.prog, self.indexed = name, list(progression), indexed
+            self.keys = [f"{name}-image", f"{name}-sum"]
+            self.written = self.collected = 0
+            self.sent = False
+            if indexed:
+                self.get_index = lambda: self.written
+
+        def advance(self):
+            self.written = self.prog.pop(0)
+
+        def describe_collect(self):
+            return {k: {"source": "file", "dtype": "number", "shape": [], "external": "STREAM:"} for k in self.keys}
+
+        def collect_asset_docs(self, index=None):
+            index = self.written if index is None else index
+            for key in self.keys:
+                uid = f"{key}-res"
+                if not self.sent:
+                    yield ("stream_resource", {"uid": uid, "data_key": key, "mimetype": "application/x-hdf5", "uri": f"file://localhost/tmp/{self.name}.h5", "parameters": {"dataset": f"/{key}"}})
+                if index > self.collected:
+                    yield ("stream_datum", {"uid": f"{uid}/{self.collected}", "stream_resource": uid, "descriptor": "", "indices": {"start": self.collected, "stop": index}, "seq_nums": {"start": 0, "stop": 0}})
+            self.sent = True
+            self.collected = max(index, self.collected)
+
+    bad = []
+    for indexed in (False, True):
+        for prog in ([4, 9, 12], [3, 3, 8], [5, 6]):
+            det = Writer("cam", prog, indexed)
+
+            def plan(det=det, n=len(prog)):
+                yield from bps.open_run()
+                yield from bps.declare_stream(det, name="fly", collect=True)
+                for _ in range(n):
+                    det.advance()
+                    yield from bps.collect(det, name="fly")
+                yield from bps.close_run()
+
+            RE, docs = _engine()
+            out = _run(RE, plan())
+            case = {"probe": "stream-assets", "get_index": indexed, "frames_written_at_each_collect": prog}
+            if out[0] != "return":
+                bad.append(("stream-assets:call-failed", f"{case}: {out[1]!r}", case))
+                continue
+            desc = {d["uid"] for n, d in docs if n == "descriptor" and d["name"] == "fly"}
+            res_key = {d["uid"]: d["data_key"] for n, d in docs if n == "stream_resource"}
+            per = {}
+            for n, d in docs:
+                if n == "stream_datum" and d["descriptor"] in desc:
+                    per.setdefault(res_key[d["stream_resource"]], []).append(d)
+            frames = None
+            for key, sds in sorted(per.items()):
+                ni, ns = 0, 1
+                for sd in sds:
+                    ind, sq = sd["indices"], sd["seq_nums"]
+                    if ind["start"] != ni or sq["start"] != ns or sq["stop"] - sq["start"] != ind["stop"] - ind["start"]:
+                        bad.append(("stream-assets:ranges-do-not-line-up", f"device {'with' if indexed else 'without'} get_index, frames written {prog}: {key} got indices {ind} / seq_nums {sq}, expected to continue from index {ni} / seq_num {ns} with equal width", case))
+                        break
+                    ni, ns = ind["stop"], sq["stop"]
+                frames = ni if frames is None else frames
+            stop = [d for n, d in docs if n == "stop"][0]
+            if frames is not None and stop["num_events"].get("fly") != frames:
+                bad.append(("stream-assets:num_events-differs-from-frames", f"device {'with' if indexed else 'without'} get_index, frames written {prog}: RunStop.num_events['fly'] = {stop['num_events'].get('fly')} but {frames} frames were declared", case))
+    return bad
+
+
 # ----------------------------------------------------------------------------- C11: a re-trip inside the suspender's settle time
 def settle_time_probe():
     """a suspender with a settle time (sleep > 0): trip, back to nominal, trip AGAIN before the settle time is over, nominal
@@ -1604,7 +1680,7 @@ def _run_call(f):
         return f()
 
 
-PROBES = {"settle-time": settle_time_probe, "configuration": configuration_probe, "monitor-options": monitor_options_probe, "wrapper-response": wrapper_response_probe, "inplan-subscription": inplan_subscription_probe, "equal-instances": equal_instances_probe, "raising-state-hook": raising_state_hook_probe, "replayed-group": replayed_group_probe, "noreplay-pause": noreplay_pause_probe, "second-call": second_call_probe, "nonresumable-wrapper": nonresumable_wrapper_probe, "external-assets": external_assets_probe, "metadata-store": metadata_store_probe, "dying-subscriber": dying_subscriber_probe, "classic-flyer": classic_flyer_probe, "nonrewindable-region": nonrewindable_region_probe, "relative-moves": relative_moves_probe, "stale-deferred-pause": stale_deferred_pause_probe, "reused-message": reused_message_probe, "locate": locate_probe, "run-wrapper-exception": run_wrapper_exception_probe}
+PROBES = {"stream-assets": stream_assets_probe, "settle-time": settle_time_probe, "configuration": configuration_probe, "monitor-options": monitor_options_probe, "wrapper-response": wrapper_response_probe, "inplan-subscription": inplan_subscription_probe, "equal-instances": equal_instances_probe, "raising-state-hook": raising_state_hook_probe, "replayed-group": replayed_group_probe, "noreplay-pause": noreplay_pause_probe, "second-call": second_call_probe, "nonresumable-wrapper": nonresumable_wrapper_probe, "external-assets": external_assets_probe, "metadata-store": metadata_store_probe, "dying-subscriber": dying_subscriber_probe, "classic-flyer": classic_flyer_probe, "nonrewindable-region": nonrewindable_region_probe, "relative-moves": relative_moves_probe, "stale-deferred-pause": stale_deferred_pause_probe, "reused-message": reused_message_probe, "locate": locate_probe, "run-wrapper-exception": run_wrapper_exception_probe}
 
 
 def add_to(res, names):
